@@ -2,7 +2,7 @@
 # runs every claimed check (quick tier by default) and prints one line per property
 cd /verif
 tier=${1:-quick}
-for p in C01 C02 C03 C04 C05 C07 C09 C10 C11 C12 C13 C14 C15 C16 C17 C18; do
+for p in C01 C02 C03 C04 C05 C06 C07 C08 C09 C10 C11 C12 C13 C14 C15 C16 C17 C18; do
   out=$(timeout 6000 ./check $p --tier $tier 2>&1); rc=$?
   echo "$p exit=$rc $(echo "$out" | grep -v '^VIOLATION' | tail -1 | cut -c1-160)"
 done
